@@ -186,6 +186,31 @@ func dirRun(prop string) func(r *runCtx, id string, f []string) {
 			case "n":
 				ref.refLine(false)
 			}
+			if prop == "C26" && (p[0] == "l" || p[0] == "n") && env.hung == "" {
+				// a line reaches every running program once, under that program's own name, and
+				// nothing else: its own lines-seen counter moves by one, or (a version that fails at
+				// run time) its own error counter does; the metrics of names that are not running
+				// stay as they are
+				seen0, errs0 := env.lseenByProg(), map[string]int64{}
+				hs := env.rt.VerifHandles()
+				for n := range hs {
+					errs0[n] = expvarMapInt("prog_runtime_errors_total", n)
+				}
+				env.apply(op)
+				seen1 := env.lseenByProg()
+				for n := range hs {
+					ds, de := seen1[n]-seen0[n], expvarMapInt("prog_runtime_errors_total", n)-errs0[n]
+					if ds+de != 1 || ds < 0 || de < 0 {
+						fails = append(fails, fl{"line-not-under-own-name", fmt.Sprintf("step %d (%s): the running program %s shows %d more lines seen and %d more runtime errors under its own name; one line reached it", step, op, n, ds, de)})
+					}
+				}
+				for n, v := range seen1 {
+					if _, running := hs[n]; !running && v != seen0[n] {
+						fails = append(fails, fl{"line-to-removed-program", fmt.Sprintf("step %d (%s): %s is not running, yet its lines-seen counter went from %d to %d", step, op, n, seen0[n], v)})
+					}
+				}
+				continue
+			}
 			if p[0] != "load" {
 				env.apply(op)
 				continue
@@ -274,6 +299,11 @@ func dirGen(g *genCtx) {
 	emit([]string{"w:a.mtail:0", "w:c.mtail:7", "load", "l:x", "mv:a.mtail:c.mtail", "load", "l:y", "load", "l:x"})
 	emit([]string{"w:c.mtail:7", "w:a.mtail:0", "load", "l:x", "mv:a.mtail:c.mtail", "load", "l:y", "load", "l:x"})
 	emit([]string{"w:b.mtail:1", "w:a.mtail:0", "w:c.mtail:13", "load", "l:x", "mv:b.mtail:c.mtail", "load", "l:y", "mv:a.mtail:c.mtail", "load", "l:x"})
+	// the same bytes under a second name, next to the first and after it is gone: each name is a
+	// program of its own
+	for _, v := range []int{0, 9, 10} {
+		emit([]string{fmt.Sprintf("w:a.mtail:%d", v), "load", "l:x", fmt.Sprintf("w:b.mtail:%d", v), "load", "l:y", "n:z", "rm:a.mtail", "load", "l:x", fmt.Sprintf("w:a.mtail:%d", v), "load", "l:y"})
+	}
 	// several kind conflicts in one refused load
 	emit([]string{"w:a.mtail:13", "load", "l:x", "w:b.mtail:12", "load", "l:y", "load"})
 	emit([]string{"w:b.mtail:12", "load", "l:x", "w:a.mtail:13", "load", "l:y", "load"})
